@@ -85,6 +85,10 @@ def cases(tier: str, rng: random.Random) -> List[Case]:
             out.append(std_case(("RecordV", ks, N(rng.choice([0, 1, 2])), vobj, avobj, strict), x, m, tag="a:record"))
         else:
             out.append(std_case(("DictAnyV", ks, vobj, avobj, strict), x, m, tag="a:dictany"))
+    # (a0) instances of the target class whose fields hold instances / opaque objects / containers of them
+    for v, x in G.instance_cases(rng):
+        for m in ("sync", "async"):
+            out.append(std_case(v, x, m, tag="a:instances"))
     # (a') class validators: every pattern over their declared fields
     for cid, (rk, flds) in G.CLASS_SCHEMAS.items():
         for pat in itertools.product(states, repeat=len(flds)):
